@@ -289,6 +289,13 @@ class DistributedNetwork(BaseManager):
         if peer.username in self.potential_parents:
             return
 
+        # The potential parents are only remembered for a while: the parent
+        # itself can never become a child
+        if self.parent and peer.username == self.parent.username:
+            logger.debug("rejecting the parent as child : %s", peer)
+            await peer.connection.disconnect(CloseReason.REQUESTED)
+            return
+
         if not self._accept_children:
             logger.debug("not accepting children, rejecting peer as child : %s", peer)
             await peer.connection.disconnect(CloseReason.REQUESTED)
